@@ -135,16 +135,37 @@ def _register_gate_named() -> None:
 # ----------------------------------------------------------------------------- tables (T)
 
 
+def _type_code(ts: str):
+    """'tensor(float)' -> 1; non-tensor type strings -> None"""
+    from onnx import TensorProto
+    if not ts.startswith("tensor(") or not ts.endswith(")"):
+        return None
+    return getattr(TensorProto, ts[7:-1].upper(), None)
+
+
 def tab_schemas() -> dict:
     import onnx
     hist: dict = {}
     for s in onnx.defs.get_all_schemas_with_history():
         if s.domain not in ("", "ai.onnx"):
             continue
+        in_types, in_vars, var_ids = [], [], {}
+        for fi in s.inputs:
+            codes = [_type_code(t) for t in fi.types]
+            if any(c is None for c in codes):
+                in_types.append([])                    # sequences / optionals: unconstrained here
+            else:
+                in_types.append(sorted(int(c) for c in codes))
+            homog = getattr(fi, "is_homogeneous", True)
+            if len(fi.types) > 1 and homog and all(c is not None for c in codes):
+                in_vars.append(var_ids.setdefault(fi.type_str, len(var_ids) + 1))
+            else:
+                in_vars.append(0)
+        variadic = bool(s.inputs) and s.inputs[-1].option == onnx.defs.OpSchema.FormalParameterOption.Variadic
         hist.setdefault(s.name, []).append(
             (int(s.since_version), int(s.min_input), int(s.max_input), int(s.min_output), int(s.max_output),
-             bool(s.deprecated), sorted(s.attributes.keys())))
-    return {k: sorted(v) for k, v in sorted(hist.items())}
+             bool(s.deprecated), sorted(s.attributes.keys()), in_types, in_vars, variadic))
+    return {k: sorted(v, key=lambda r: r[0]) for k, v in sorted(hist.items())}
 
 
 def tab_reduce(max_opset: int) -> tuple[list, list]:
@@ -193,10 +214,10 @@ def tab_gate_programs(max_opset: int) -> dict:
                 raised.append((name, v, ex.error[:80]))
                 continue
             exported.append((name, v))
-            tree = modeltree.from_proto(ex.proto, with_vinfo=False)
-            for _, n in modeltree.iter_nodes(tree):
+            tree = modeltree.from_proto(ex.proto, with_vinfo=True)
+            for _, n, dts in modeltree.iter_nodes_typed(tree):
                 if n["d"] == "":
-                    forms.add((v, n["op"], len(n["i"]), len(n["o"]), tuple(sorted(n["a"]))))
+                    forms.add((v, n["op"], len(n["i"]), len(n["o"]), tuple(sorted(n["a"])), tuple(dts)))
     full = [p for p in GATE_PROGRAMS
             if all((p, v) in set(exported) for v in range(progs.BASELINE_OPSET, max_opset + 1))]
     return {"forms": sorted(forms), "exported": exported, "raised": raised, "programs": full}
@@ -211,22 +232,32 @@ def tabulate() -> dict:
 
 
 def _form(f) -> str:
-    op, ni, no, attrs = f
+    op, ni, no, attrs = f[:4]
     return f"({lean_str(op)}, {ni}, {no}, [{', '.join(lean_str(a) for a in attrs)}])"
+
+
+def _tform(f) -> str:
+    """typed form: the plain form plus the declared dtype code of every input (0 = not declared)"""
+    op, ni, no, attrs, dts = f
+    return (f"({lean_str(op)}, {ni}, {no}, [{', '.join(lean_str(a) for a in attrs)}], "
+            f"[{', '.join(str(int(d)) for d in dts)}])")
 
 
 def generate(tabs: Optional[dict] = None) -> dict:
     tabs = tabs or tabulate()
 
     def sig(s):
-        since, mi, ma, mo, mxo, dep, attrs = s
-        return f"⟨{since}, {mi}, {ma}, {mo}, {mxo}, {lean_bool(dep)}, [{', '.join(lean_str(a) for a in attrs)}]⟩"
+        since, mi, ma, mo, mxo, dep, attrs, in_types, in_vars, variadic = s
+        tys = ", ".join("[" + ", ".join(str(c) for c in l) + "]" for l in in_types)
+        return (f"⟨{since}, {mi}, {ma}, {mo}, {mxo}, {lean_bool(dep)}, [{', '.join(lean_str(a) for a in attrs)}], "
+                f"[{tys}], [{', '.join(str(v) for v in in_vars)}], {lean_bool(variadic)}⟩")
 
     sch = ",\n  ".join(f"({lean_str(op)}, [{', '.join(sig(s) for s in sigs)}])"
                        for op, sigs in tabs["schemas"].items())
     red = lean_list([f"({v}, {_form((op, ni, no, at))})" for v, op, ni, no, at in tabs["reduce"]], 3)
     sw = lean_list([f"({v}, [{', '.join(_form(f) for f in fs)}])" for v, fs in tabs["swish"]], 1)
-    gf = lean_list([f"({v}, {_form((op, ni, no, list(at)))})" for v, op, ni, no, at in tabs["gate"]["forms"]], 3)
+    gf = lean_list([f"({v}, {_tform((op, ni, no, list(at), list(dts)))})"
+                    for v, op, ni, no, at, dts in tabs["gate"]["forms"]], 2)
     ge = lean_list([f"({lean_str(p)}, {v})" for p, v in tabs["gate"]["exported"]], 6)
     src = f"""/- GENERATED by harness/props/c11.py from the installed onnx.defs and /repo on every run — do not edit. -/
 import J2O.Model.C11
@@ -236,7 +267,8 @@ open J2O.C11
 /-- newest default-domain opset the installed onnx defines -/
 def maxOpset : Nat := {tabs['max']}
 
-/-- operator ↦ versions ⟨since, minIn, maxIn, minOut, maxOut, deprecated, attribute names⟩ (onnx.defs) -/
+/-- operator ↦ versions ⟨since, minIn, maxIn, minOut, maxOut, deprecated, attribute names, admitted dtype codes
+    per formal input, type-variable id per formal input, last input variadic⟩ (onnx.defs) -/
 def schemas : Schemas := [
   {sch}]
 
@@ -255,8 +287,9 @@ def gatePrograms : List String := {lean_list([lean_str(p) for p in tabs['gate'][
 /-- (program, opset) pairs exported by the live `to_onnx` -/
 def gateExports : List (String × Nat) := {ge}
 
-/-- distinct default-domain node forms (any depth, function bodies included) of those exports -/
-def gateForms : List (Nat × String × Nat × Nat × List String) := {gf}
+/-- distinct default-domain node forms (any depth, function bodies included) of those exports, with the
+    declared dtype code of every input (0 = not declared) -/
+def gateForms : List (Nat × String × Nat × Nat × List String × List Nat) := {gf}
 
 end J2O.Gen.C11
 """
@@ -402,13 +435,15 @@ def run(chk: Check) -> None:
     # rows of the tables judged by the model (interpreter) – locates broken rows, reports 13..20
     rows = [("reduce", v, (op, ni, no, at)) for v, op, ni, no, at in tabs["reduce"]]
     rows += [("swish", v, f) for v, fs in tabs["swish"] for f in fs]
-    rows += [("gate", v, (op, ni, no, list(at))) for v, op, ni, no, at in tabs["gate"]["forms"]]
+    rows += [("gate", v, (op, ni, no, list(at), list(dts))) for v, op, ni, no, at, dts in tabs["gate"]["forms"]]
     bad_rows, explored_bad = [], []
     try:
-        req = json.dumps({"op": "forms", "rows": [[v, f[0], f[1], f[2], list(f[3])] for _, v, f in rows]})
+        req = json.dumps({"op": "forms", "rows": [[v, f[0], f[1], f[2], list(f[3]), list(f[4]) if len(f) > 4 else []]
+                                                   for _, v, f in rows]})
         ans = json.loads(common.run_driver("C11", [req])[0])
         for (tab, v, f), ok in zip(rows, ans):
-            chk.count({"table": tab, "opset": v, "form": [f[0], f[1], f[2], list(f[3])]}, nontrivial=v >= 21)
+            chk.count({"table": tab, "opset": v, "form": [f[0], f[1], f[2], list(f[3])] + ([list(f[4])] if len(f) > 4 else [])},
+                      nontrivial=v >= 21)
             if not ok:
                 (bad_rows if v >= 21 else explored_bad).append({"table": tab, "opset": v, "form": list(f)})
     except Exception as e:
@@ -448,7 +483,7 @@ def run(chk: Check) -> None:
                 raised[k] = raised.get(k, 0) + 1
                 continue
             is_explore = int(ex.cfg["opset"]) < 21        # 13..20: explored and reported only
-            tree = modeltree.from_proto(ex.proto, with_vinfo=False)
+            tree = modeltree.from_proto(ex.proto, with_vinfo=True)
             done.append((ex, tree, is_explore))
             lines.append(modeltree.request("legal", tree))
         answers = common.run_driver("C11", lines)
@@ -559,7 +594,7 @@ def replay(path: str) -> int:
     if not ex.ok:
         print("export raises now (explicit error):", ex.error)
         return 0
-    tree = modeltree.from_proto(ex.proto, with_vinfo=False)
+    tree = modeltree.from_proto(ex.proto, with_vinfo=True)
     ans = common.run_driver("C11", [modeltree.request("legal", tree)])[0]
     print("checker:", ans)
     try:
